@@ -22,7 +22,7 @@ TRUSTED = [
     "Go harness harness/cmd/gvh-strlib (+ shared hx.RunLuaCase), its embedded Lua driver chunks (pcall, emit, proxies); Python generator/diff in lib/props/C19.py, py",
     "modelled not verified: Go strings.Index (as first occurrence), strings.Repeat / strings.Builder (as concatenation), "
     "sort.Sort (Section variable: calls only Less/Swap with indices in range, terminates; sampled through the proxy access log), "
-    "allocation failure for huge string.rep results (cases with 2^16 <= size < 2^63 are not run)",
+    "allocation failure for huge string.rep results (cases with 2^16 <= size <= 2^40 are not run; above 2^40 rep refuses)",
 ]
 
 THEOREMS_STR = ["C19_sub_spec", "C19_byte_spec", "C19_char_spec", "C19_rep_spec_partial", "C19_rep_spec_refuted", "C19_len_spec",
@@ -68,7 +68,7 @@ def classify_err(msghex):
     r = re.search(r"#(\d+) out of range", m)
     if r:
         return "err:range%x" % int(r.group(1))
-    for pat, cls in (("rep causes overflow", "err:overflow"), ("must be integers", "err:notint"),
+    for pat, cls in (("rep causes overflow", "err:overflow"), ("resulting string too large", "err:toolarge"), ("must be integers", "err:notint"),
                      ("interval too large", "err:toolarge"), ("wrap around", "err:wrap"),
                      ("too many values to unpack", "err:toomany"), ("invalid value", "err:invalid"),
                      ("too big to sort", "err:toobig"), ("injected", "err:injected"), ("cmp", "err:cmp"),
@@ -151,8 +151,8 @@ def gen_string_cases(tier, rng, ck):
         for n in ns:
             for sep in seps:
                 size = 0 if n <= 0 else n * len(s) + (n - 1) * len(sep or b"")
-                if (1 << 16) <= size < (1 << 63):
-                    ck.count("rep:skipped-allocation")
+                if (1 << 16) <= size <= (1 << 40):
+                    ck.count("rep:skipped-allocation")     # a real allocation; above 2^40 rep refuses
                     continue
                 if n > (1 << 16) and size < (1 << 16):
                     # n-1 writes of empty strings: the builder loop (like PUC-Lua's) runs n times
@@ -943,7 +943,7 @@ def run(tier, seed):
         trusted_base=TRUSTED,
         assumptions=["arguments are passed as Lua integers/strings (argument coercion of floats and numeric strings is not part of the model)",
                      "Go int is 64 bits (amd64)",
-                     "string.rep calls whose result would need 2^16..2^63 bytes are not executed (allocation failure is outside the model)"])
+                     "string.rep calls whose result would need 2^16..2^40 bytes are not executed (allocation failure is outside the model)"])
 
 
 def replay(path, seed):
